@@ -25,6 +25,8 @@ type judge struct {
 	nLoopRows, nLoopItems                 int
 	nImgWith, nImgWithout                 int
 	nNonText                              int
+	nJpegInserted                         int // JPEG picture parts that only the rendered package has
+	nEdgeBlankValues                      int // supplied values with white space at an edge that were substituted in the body
 	nParas                                int
 	ambiguous                             int
 	nLenientLoopsItems                    int // ... loop markers among them whose list has items
@@ -206,6 +208,9 @@ func (j *judge) substitute(bp *para, scope map[string]string, loopRow bool, ctx 
 				e.info.supStrad++
 			}
 			j.countSplit(bp, ed.s, ed.e, len(spanFmts) > 1)
+			if ed.repl != "" && strings.Trim(ed.repl, " \t\r\n") != ed.repl {
+				j.nEdgeBlankValues++
+			}
 			for _, ch := range ed.repl {
 				e.txt = append(e.txt, atom{text: true, ch: ch, fmt: txt[ed.s].fmt})
 				e.cls = append(e.cls, clsVal)
